@@ -2,6 +2,7 @@ package chunkparser
 
 import (
 	"encoding/binary"
+	"fmt"
 	"io"
 )
 
@@ -56,6 +57,9 @@ func (p *MP4ChunkParser) Parse() error {
 		}
 		size := binary.BigEndian.Uint32(p.buf[nextBoxStart : nextBoxStart+4])
 		currBox = string(p.buf[nextBoxStart+4 : nextBoxStart+8])
+		if size < 8 {
+			return fmt.Errorf("box %q with impossible size %d", currBox, size)
+		}
 		nextBoxStart += size
 		switch currBox {
 		case "moov":
